@@ -204,6 +204,49 @@ def walk(p):
         yield from walk(p[2])
 
 
+def shape_paths(p):
+    """address paths of a core program with index levels abstracted: tuples of ("s", id) / ("i",)"""
+    k = p[0]
+    if k == "dist":
+        return {()}
+    if k == "static":
+        out = set()
+        for (a, g, es) in p[1]:
+            pre = tuple(("s", x) for x in a)
+            out |= {pre + q for q in shape_paths(g)}
+        return out
+    if k in ("vmap", "scan"):
+        return {(("i",),) + q for q in shape_paths(p[2])}
+    if k == "switch":
+        return set().union(*[shape_paths(g) for g in p[1]]) if p[1] else set()
+    if k == "mask":
+        return shape_paths(p[1])
+    if k == "dimap":
+        return shape_paths(p[2])
+    return set()
+
+
+def switch_prefix_clash(core):
+    """K65: some switch has two branches that use one address prefix with different structure below it
+    (a static key / a value in one branch where the other has an index level)"""
+    for p in walk(core):
+        if p[0] != "switch":
+            continue
+        sets = [shape_paths(g) for g in p[1]]
+        for i in range(len(sets)):
+            for j in range(len(sets)):
+                if i == j:
+                    continue
+                for a in sets[i]:
+                    for b in sets[j]:
+                        n = 0
+                        while n < len(a) and n < len(b) and a[n] == b[n]:
+                            n += 1
+                        if n < len(a) and a[n] == ("i",) and (n == len(b) or b[n][0] == "s") and n > 0:
+                            return True
+    return False
+
+
 def has(core, kinds):
     return any(p[0] in kinds for p in walk(core))
 
@@ -509,6 +552,8 @@ def run_case(case):
         if r[0] == "ok":
             traces.append(r[1][0])
             r = ("ok", r[1][1])
+        if r[0] == "err" and ents and "Too many indices" in r[2] and switch_prefix_clash(core):
+            r = ("known", "switch-branch-prefix-clash", r[2])      # K65
         steps.append({"kind": "gen", "seed": kseed, "entries": ents, "style": style, "res": r})
         if r[0] == "ok" and not no_assess:
             ti = len(traces) - 1
@@ -655,6 +700,8 @@ def run_case(case):
                     "old_args": cur_args, "old_obs": cur_obs, "noship": noship}
             if r[0] == "err" and has(core, ("switch",)) and "Custom node type mismatch" in r[2]:
                 r = ("known", "switch-edit-retdiff", r[2])
+            if r[0] == "err" and "Too many indices" in r[2] and switch_prefix_clash(core):
+                r = ("known", "switch-branch-prefix-clash", r[2])      # K65
             if r[0] == "err" and r[2].startswith("AssertionError") and nested_mask(core):
                 r = ("known", "mask-of-mask-edit", r[2])      # K26: Mask.build of a Mask whose flag is a Diff
             if r[0] != "ok":
